@@ -27,7 +27,7 @@ from ..common import MachineryError, time_limit, ImplTimeout
 
 WORKERS = 8
 NPROC = 4  # processes replaying cases on the real library
-LIMIT = 10  # seconds per construction (milliseconds in practice; the limit only stops a looping mutant)
+LIMIT = 60  # seconds per construction (milliseconds in practice; the limit only stops a looping mutant)
 SMALL = 1000  # |numerator|, denominator <= SMALL are written as native TLC integers
 
 NONE = {"k": "none"}
@@ -319,7 +319,9 @@ def _observe_chunk(a):
 def observe_all(decl, items, nproc=NPROC):
     """observe (case, family, id) triples in forked worker processes; results in id order"""
     import multiprocessing
+    from unified_planning.environment import Environment
 
+    Environment()  # the library's lazy imports happen here, once, outside every time limit and before forking
     if nproc <= 1 or len(items) < 200:
         return _observe_chunk((decl, items))
     n = 4 * nproc
